@@ -389,10 +389,68 @@ theorem C20_valueless_lt_or_bad_base_refused (c : Cfg) (s : State) (remote : Opt
       simp only [he]
       split <;> simp [applyAction, Resp.isError]
 
-/-- **C20 (no registration poisons the lookups).** After every history, every base a client has
-given explicitly for a registration in the directory is one `urlsplit` accepts: the resolution of
-that registration's links, which every resource lookup and every filtered endpoint lookup runs
-over ALL registrations, has a base it can work with.  (Bases taken from the request's source
+/-- **C20 (text the lookups would write out unescaped).** A registration, POST or PUT with a
+parameter whose name is not an RFC 6690 parmname (non-empty, attr-char only: `k y`, `a<b`, `x"y`,
+`a,</evil>;ep`, the empty name), or with a `base` holding `>`, is answered with an error whatever
+else it carries, and so — by `C20_failed_request_no_change` — changes nothing.  (The endpoint lookup
+writes parameter names as link-param names, the resource lookup writes the base into `<…>`: neither
+position has an escape.) -/
+theorem C20_unwritable_name_or_base_refused (c : Cfg) (s : State) (remote : Option Str) (q : Query)
+    (body : Body) (path : Nat)
+    (h : (∃ e ∈ q, parmnameOk e.1 = false) ∨ ∃ b, vals sBase q = [some b] ∧ b.contains 62 = true) :
+    (step c s (.register remote q body)).2.isError = true ∧
+    (step c s (.update path remote q body)).2.isError = true ∧
+    (step c s (.put path remote q body)).2.isError = true := by
+  have hepd : parmnameOk sEp = true ∧ parmnameOk sD = true := by decide
+  have key : ∀ now reg ini, ∃ e, updateParams now reg remote q ini = .error e := by
+    intro now reg ini
+    rcases h with h | h
+    · exact updateParams_bad_name h
+    · exact updateParams_gt_base h
+  refine ⟨?_, ?_, ?_⟩
+  · unfold step
+    simp only [decideOp]
+    cases hr : registerReg s remote q body with
+    | error e => simp [applyAction, Resp.isError]
+    | ok r =>
+      obtain ⟨fresh, r0, h0⟩ := registerReg_ok_updateParams hr
+      have : ∃ e, updateParams s.now fresh remote
+          (q.filter (fun e => decide (e.1 ≠ sEp ∧ e.1 ≠ sD))) true = .error e := by
+        rcases h with ⟨e, he, hn⟩ | ⟨b, hb, hg⟩
+        · refine updateParams_bad_name ⟨e, List.mem_filter.mpr ⟨he, ?_⟩, hn⟩
+          have h1 : e.1 ≠ sEp := by intro h'; rw [h', hepd.1] at hn; cases hn
+          have h2 : e.1 ≠ sD := by intro h'; rw [h', hepd.2] at hn; cases hn
+          simp [h1, h2]
+        · refine updateParams_gt_base ⟨b, ?_, hg⟩
+          rw [vals_filter (by intro e he; simp [he, sBase, sEp, sD])]
+          exact hb
+      obtain ⟨e, he⟩ := this
+      rw [he] at h0
+      cases h0
+  · unfold step
+    simp only [decideOp]
+    cases hg : aget path s.byPath with
+    | none => simp [applyAction, Resp.isError]
+    | some reg =>
+      obtain ⟨e, he⟩ := key s.now reg false
+      simp only [he]
+      split <;> simp [applyAction, Resp.isError]
+  · unfold step
+    simp only [decideOp]
+    cases hg : aget path s.byPath with
+    | none => simp [applyAction, Resp.isError]
+    | some reg =>
+      obtain ⟨e, he⟩ := key s.now reg false
+      simp only [he]
+      split <;> simp [applyAction, Resp.isError]
+
+/-- **C20 (explicit bases have paired brackets).** After every history, every base a client has
+given explicitly for a registration in the directory passes `urlsplitOk`, which is bracket parity
+of the string and no more (the one reason `urlsplit` has to refuse a base among those the driver
+lets into the model).  This is NOT a statement that no registration can make a lookup unreadable:
+what keeps framing characters out of the lookups is `C20_unwritable_name_or_base_refused` (per
+request; an invariant "every stored name is a parmname, no stored base holds `>`" over all
+histories is not proved).  (Bases taken from the request's source
 address come from the transport, not from the client's query.) -/
 theorem C20_explicit_bases_resolvable (c : Cfg) (ops : List Op) (x : Reg)
     (hx : x ∈ (finalState c State.init ops).regs) (he : x.baseExplicit = true) :
